@@ -109,7 +109,9 @@ def evalSparse (st : DState) (name : String) (t : List String) (impl : String) :
     let okSet := (multi || vals.length ≤ n) && (if multi then sortedLe vals else sortedStrict vals) && vals.all (· < n)
     match implToks with
     | "ok" :: ws =>
-      (match widthOfSer (parseWords ws) with
+      -- if the implementation's bytes do not even parse, fall back to the re-computed width so that the queries that
+      -- follow are still judged against the spec (the build line itself then shows impl != model)
+      (match (widthOfSer (parseWords ws)).orElse (fun _ => some (sparseWidthRule n vals.length)) with
        | none => { st := st, model := "driver:cannot-decode-impl-bytes", spec := some (if okSet then "ok *" else "err*") }
        | some w =>
          if w < 1 ∨ w > 63 then { st := st, model := s!"driver:inadmissible-width {w}", spec := some "ok *" } else
